@@ -22,7 +22,7 @@ from cbimon.props import c07, c08
 
 PROP = "C06"
 RULE = ("code base = C04-style forest (1..4 commands over 0..4 platforms) plus unused files in nested directories "
-        "(C, C++ header, CUDA, free-form Fortran, assembly), file symlinks to members and to outside files; SLOC < 1000. "
+        "(C, C++ header, CUDA, free-form Fortran, assembly; directory names containing dots, a CRLF file, a file with non-UTF-8 bytes, a 1500-line file), file symlinks to members and to outside files. "
         "Compared: in-process attribution vs summary table / percentages / metrics / Total SLOC vs cbi-tree rows "
         "(plain, --prune, -L 1..3) vs coverage.json per platform. Non-trivial: >=2 platform-set rows and >=1 unused "
         "line; distinct by (files, commands, links).")
@@ -37,6 +37,12 @@ EXTRA = {
     "extra/f.f90": "program p\n! comment\n  print *, 'a' ! t\n#ifdef Y\n  print *, 'y'\n#endif\nend program p\n",
     "extra/a.s": "# comment\nmov r0, r1 ; c\n// c\nret\n",
     "extra/empty.h": "",
+    # directory names with dots and dashes; CRLF line ends; bytes that are not UTF-8 (texts are written as latin-1)
+    "extra/lib-1.2/w.c": "int w1;\r\n/* c */\r\nint w2;\r\n#if 0\r\nint w3;\r\n#endif\r\n",
+    "extra/v2.0/d.ir/l1.h": "int caf\xe9; // \xe9\n#ifdef L\nint l; /* \xff */\n#endif\n",
+    "extra/v2.0/noext.d/x.cc": "int x;\n",
+    # more than 1000 lines in one file: cbi-tree switches to the 1.2k notation
+    "extra/big.c": "".join("int b%d;\n" % i if i % 5 else "// c\n" for i in range(1500)),
 }
 
 
@@ -46,7 +52,8 @@ def bounds(tier):
 
 def required_cells(tier):
     return ["row:empty-set", "platforms>=3", "platforms=0", "platforms=1", "dir-levels>=2", "pruned-file", "symlink-row",
-            "summary", "tree", "tree:prune", "tree:-L", "cov", "clustering", "fortran-file", "asm-file"]
+            "summary", "tree", "tree:prune", "tree:-L", "cov", "clustering", "fortran-file", "asm-file",
+            "dotted-directory", "crlf-file", "non-utf8-file", "sloc>=1000"]
 
 
 def close2(printed, exact):
@@ -86,7 +93,7 @@ def materialize(case, base):
     for rel, text in case["extra"].items():
         p = os.path.join(root, rel)
         os.makedirs(os.path.dirname(p), exist_ok=True)
-        with open(p, "w") as f:
+        with open(p, "w", encoding="latin-1", newline="") as f:
             f.write(text)
     with open(os.path.join(out, "far.h"), "w") as f:
         f.write("int far;\n")
@@ -198,7 +205,11 @@ def compare_tree(tag, out, root, fsm, all_platforms, prune=False, levels=None):
         r = got[path]
         if r["platforms"] != letters:
             problems.append({"kind": f"{tag}: platforms column", "path": path, "expected": letters, "observed": r["platforms"]})
-        if total < 1000 and r["sloc"] != str(total):
+        if total >= 1000:
+            # human-readable notation: one decimal of thousands
+            if not (r["sloc"].endswith("k") and total < 10 ** 6 and r["sloc"] == "%.1fk" % (total / 1000)):
+                problems.append({"kind": f"{tag}: SLOC column (k notation)", "path": path, "expected": "%.1fk" % (total / 1000), "observed": r["sloc"]})
+        elif r["sloc"] != str(total):
             problems.append({"kind": f"{tag}: SLOC column", "path": path, "expected": total, "observed": r["sloc"]})
         if not close2(r["cov"], cov) or not close2(r["avg"], avg):
             problems.append({"kind": f"{tag}: coverage columns", "path": path, "expected": [str(cov), str(avg)], "observed": [r["cov"], r["avg"]]})
@@ -254,6 +265,14 @@ def check_case(ctx, case, base, cls, do_clustering=False):
             cells.add("fortran-file")
         if any(fn.endswith(".s") for fn in fsm):
             cells.add("asm-file")
+        if any("." in os.path.dirname(os.path.relpath(fn, realroot)) for fn in fsm):
+            cells.add("dotted-directory")
+        if "extra/lib-1.2/w.c" in case["extra"]:
+            cells.add("crlf-file")
+        if "extra/v2.0/d.ir/l1.h" in case["extra"]:
+            cells.add("non-utf8-file")
+        if total >= 1000:
+            cells.add("sloc>=1000")
         toml = c08.write_dbs(case, base) if case["tus"] else None
         if toml is None:
             with open(os.path.join(realroot, "analysis.toml"), "w") as f:
